@@ -185,7 +185,9 @@ class Joiner:
                 lb_, hb_ = self.B.interval(b.lin)
                 lo_ = None if la_ is None or lb_ is None else min(la_, lb_)
                 hi_ = None if ha_ is None or hb_ is None else max(ha_, hb_)
-                if lo_ is not None or hi_ is not None:
+                if (lo_ is not None or hi_ is not None) and not self.keep:
+                    # (only for joins of sibling outcomes: in an accumulating join such a fact would be re-derived and dropped
+                    #  again round after round and keep the fixpoint from settling)
                     self.hull_facts.append((r, lo_, hi_))
             if self.collect_leaves and len(self.int_leaves) < 8:
                 self.int_leaves.append((a.lin, b.lin, r, a.w))
